@@ -93,6 +93,29 @@ def run(tier, mode):
     if not where_is('wherein', d):
         fails.append({'kind': 'word_lost', 'detail': {'text': t, 'word': 'wherein', 'config': ''}, 'got': repr([(x.trs, x.desc) for x in d.tracts]), 'want': 'wherein kept',
                       'known_id': 'C04-direction-letter' if where_is('herein', d) else None})
+    # two foreign words at once (under sec_within several unattached blocks are re-attached to the one tract: none may be lost)
+    for i in range(60 if tier == 'quick' else 800):
+        base = P.render(r, P.gen_desc(r, max_groups=1, max_secs=1), r.choice(P.LAYOUTS))
+        bounds = token_boundaries(base)
+        p1, p2 = sorted(r.sample(bounds, 2)) if len(bounds) >= 2 else (0, len(base))
+        w1, w2 = r.sample(WORDS, 2)
+        text = base[:p1] + (' ' if base[:p1] and not base[:p1][-1].isspace() else '') + w1 + ' ' + base[p1:p2] + (' ' if base[p1:p2] and not base[p1:p2][-1].isspace() else '') + w2 + ' ' + base[p2:]
+        cfg = r.choice(['sec_within', 'sec_within', 'segment,sec_within', '', 'sec_within,sec_colon_cautious'])
+        d = H.call(pytrs.PLSSDesc, text, config=cfg)
+        n_or += 1
+        if isinstance(d, H.Exn):
+            continue
+        texts.append(text)
+        for w in (w1, w2):
+            if where_is(w, d):
+                nontriv.add((text, cfg, w))
+                continue
+            wpos = text.index(w)
+            before = text[:wpos]
+            dir_letter = w[0].lower() in 'nsew' and bool(re.search(r'\d\W{0,3}$', before)) and (where_is(w[1:], d) is not None)
+            in_pm_gap = bool(PM_RGX.search(text[wpos:wpos + 60])) and (any(wpos - m.end() <= 30 for m in twprge_regex.finditer(before)) or bool(re.search(r'\d\D{0,30}$', before)))
+            fails.append({'kind': 'word_lost', 'detail': {'text': text, 'word': w, 'config': cfg}, 'got': repr([(t.trs, t.desc) for t in d.tracts][:3]) + ' e_flags=' + repr(d.e_flags)[:120],
+                          'want': f'{w} in a tract desc or an unused_desc flag', 'known_id': 'C04-pm-gap' if in_pm_gap else ('C04-direction-letter' if dir_letter else None)})
     for t, w, kid in [('Q T154N-R97W Sec 14: NE/4', 'Q', 'C04-short-unused'), ('T154N-R97W QXZ Sec 14: NE/4', 'QXZ', None), ('QXZ T154N-R97W Sec 14: NE/4', 'QXZ', None),
                       ('Sec 14: NE/4, T154N-R97W QXZ', 'QXZ', None), ('T154N-R97W ALL Sec 14: NE/4', 'ALL', None)]:
         d = pytrs.PLSSDesc(t)
